@@ -6,7 +6,7 @@
 (* <<property id, predicate name>>.                                         *)
 (***************************************************************************)
 EXTENDS Naturals, Integers, Sequences, FiniteSets, SequencesExt,
-        FiniteSetsExt, Functions, TLC, Text, Vlq, SMap, Sem, Attr, Compose, Rope, EncM, SplitM, ReplaceM, ConcatM, HashM, LeafM
+        FiniteSetsExt, Functions, TLC, Text, Vlq, SMap, Sem, Attr, Compose, Rope, EncM, SplitM, ReplaceM, ConcatM, HashM, LeafM, CombineM
 
 NREG == 16
 EmptyHeap == [i \in 0..(NREG - 1) |-> Nil]
@@ -225,6 +225,9 @@ LawChecks(r, st) ==
          /\ SharedNamesAgreeInTree(st.heap[r.r]) ->
          {<<"C06", "concat_keeps_child_attribution">>,
           <<"C06", "concat_lines_first_mapped_piece">>}
+         \cup (IF /\ \A x \in {r.r} \cup ToSet(r.children) : <<x, "stream", TRUE, FALSE>> \in DOMAIN st.obs
+                    /\ "cached" \notin Kinds(st.heap[r.r])
+                 THEN {<<"DRIFT", "concat_stream_follows_ConcatM">>} ELSE {})
          \cup (IF /\ \A x \in {r.r} \cup ToSet(r.children) : <<x, "stream", TRUE, TRUE>> \in DOMAIN st.obs
                     \* a cached child answers the second call from what the first stored
                     /\ "cached" \notin Kinds(st.heap[r.r])
@@ -692,6 +695,8 @@ Checks(r, st) ==
               \cup (IF dom THEN {<<"C11", "announce_before_use">>} ELSE {})
               \cup (IF TreeOf(r, st).k \in {"orig", "raw"}
                       THEN {<<"DRIFT", "leaf_stream_follows_LeafM">>} ELSE {})
+              \cup (IF C09Domain(TreeOf(r, st))
+                      THEN {<<"DRIFT", "combined_stream_follows_CombineM">>} ELSE {})
               \cup (LET t == TreeOf(r, st)
                     IN IF IsMapLeaf(t) /\ IsAscii(t.b) /\ MapFitsText(LeafMap(t), t.b)
                          THEN {<<"DRIFT", "sms_stream_follows_SplitM">>}
@@ -880,6 +885,20 @@ Holds(c, r, st) ==
                            IN [i \in 1..Len(cs) |-> [x |-> ChunkText(cs[i]), gl |-> cs[i].gl, gc |-> cs[i].gc]]
              model == ReplaceStream(strip(inner.ev), inner.end, Sorted(st.heap[r.r].repls))
          IN model.chunks = strip(mine.ev) /\ model.end = mine.end
+    [] c = <<"DRIFT", "concat_stream_follows_ConcatM">> ->
+         LET strip(evs) == LET cs == SelectSeq(evs, IsChunk)
+                           IN [i \in 1..Len(cs) |->
+                                 [gl |-> cs[i].gl, gc |-> cs[i].gc, ni |-> -1,
+                                  si |-> IF cs[i].o = <<>> THEN -1 ELSE 0,
+                                  ol |-> IF cs[i].o = <<>> THEN 0 ELSE cs[i].o[2],
+                                  oc |-> IF cs[i].o = <<>> THEN 0 ELSE cs[i].o[3],
+                                  x |-> ChunkText(cs[i])]]
+             kid(x) == LET o == st.obs[<<x, "stream", TRUE, FALSE>>]
+                       IN [text |-> <<>>, evn |-> strip(o.ev), end |-> o.end]
+             mine == st.obs[<<r.r, "stream", TRUE, FALSE>>]
+             model == ConcatNormal([k \in 1..Len(r.children) |-> kid(r.children[k])])
+         IN /\ model.out = strip(mine.ev)
+            /\ <<model.lineOff + 1, model.colOff>> = mine.end
     [] c = <<"DRIFT", "concat_final_follows_ConcatM">> ->
          LET strip(evs) == LET cs == SelectSeq(evs, IsChunk)
                            IN [i \in 1..Len(cs) |->
@@ -902,6 +921,9 @@ Holds(c, r, st) ==
                  /\ cs[i].x = model.ev[i].x /\ cs[i].o = model.ev[i].o
                  /\ cs[i].gl = model.ev[i].gl /\ cs[i].gc = model.ev[i].gc
             /\ r.out.end = model.end
+    [] c = <<"DRIFT", "combined_stream_follows_CombineM">> ->
+         LET model == CombineStream(t, r.columns, r.final)
+         IN r.out.ev = model.ev /\ r.out.end = model.end
     [] c = <<"DRIFT", "hash_feed_follows_HashM">> -> r.out.feed = Blank(Feed(t))
     [] c = <<"DRIFT", "lock_refuses_as_modelled">> -> r.waited
     [] c = <<"DRIFT", "schedule_replayed">> ->
